@@ -14,7 +14,8 @@ EXTENDS Pickle
 CONSTANTS N, K, L, Mode
 
 \* the larger scopes use fewer atoms (the structure, not the atom, is what they vary)
-Atoms == IF N * K >= 6 THEN { Atom("int", "7"), Atom("str", "a") }
+Atoms == IF N * K >= 9 THEN { Atom("int", "7") }
+         ELSE IF N * K >= 6 THEN { Atom("int", "7"), Atom("str", "a") }
          ELSE { Atom("none", ""), Atom("bool", "True"), Atom("int", "7"), Atom("int", "300"), Atom("str", "a") }
 NodeIds == 1..N
 Items == Atoms \cup { Ref(i) : i \in NodeIds }
@@ -40,13 +41,20 @@ HashableItem(nodes, x, d) ==
     ELSE LET n == nodes[x.id] IN
          ~Mutable(n) /\ \A j \in DOMAIN n.kids : HashableItem(nodes, n.kids[j], d - 1)
 
+\* the value of a hashable item (atoms, tuples and host objects over hashable items): two keys
+\* of a dict or elements of a set must differ as values, not merely as nodes
+RECURSIVE ValOf(_, _, _)
+ValOf(nodes, x, d) ==
+    IF ~IsRef(x) \/ d = 0 THEN <<"atom", x>>
+    ELSE LET n == nodes[x.id] IN <<n.t, [j \in DOMAIN n.kids |-> ValOf(nodes, n.kids[j], d - 1)]>>
+
 ValidNode(nodes, i) ==
     LET n == nodes[i] IN
     CASE n.t = "dict" -> /\ Len(n.kids) % 2 = 0
                          /\ \A j \in DOMAIN n.kids : j % 2 = 1 => HashableItem(nodes, n.kids[j], N + 1)
-                         /\ \A j, k \in DOMAIN n.kids : (j % 2 = 1 /\ k % 2 = 1 /\ j # k) => n.kids[j] # n.kids[k]
+                         /\ \A j, k \in DOMAIN n.kids : (j % 2 = 1 /\ k % 2 = 1 /\ j # k) => ValOf(nodes, n.kids[j], N + 1) # ValOf(nodes, n.kids[k], N + 1)
       [] n.t = "set"  -> /\ \A j \in DOMAIN n.kids : HashableItem(nodes, n.kids[j], N + 1)
-                         /\ \A j, k \in DOMAIN n.kids : j # k => n.kids[j] # n.kids[k]
+                         /\ \A j, k \in DOMAIN n.kids : j # k => ValOf(nodes, n.kids[j], N + 1) # ValOf(nodes, n.kids[k], N + 1)
       [] OTHER -> TRUE
 
 VARIABLE x
